@@ -1,6 +1,7 @@
 (* C15 -- leaf format validators decide exact grammars; one spelling per key.
    Property theorems only; each is closed by `exact` of a lemma proved elsewhere. *)
 From CCT Require Import Prelude Hex Num Time Formats.
+From CCT.Gen Require Pins.
 From CCT.Gen Require Params.
 From CCT.proofs Require Import HexFacts SigFacts.
 
@@ -88,6 +89,27 @@ Example C15_witnesses :
   /\ is_gpg_signature (VDict [(VStr (U"other_headers"), VStr (U"")); (VStr (U"signature"), VStr (repeat 48%N 128))]) = false.
 Proof. vm_compute. repeat split. Qed.
 
+(* BEGIN SOURCE PINS -- written by harness/mkpins.py; the list is what Gen/Pins.v held for the tree the model was validated against *)
+(* the functions of the package this property depends on (call-graph closure of its entry points), each with the fingerprint of its
+   logic (AST without docstrings, annotations, messages, local names): the model and the correspondence runs were validated against
+   exactly these; a change of logic in any of them breaks this obligation and the check then searches for a failing input *)
+Theorem C15_source_pinned : CCT.Gen.Pins.pinned_C15 =
+  [(U"common.checkformat_any_signature", U"82ba0ed515a770fad8a9");
+   (U"common.checkformat_gpg_fingerprint", U"86e3bb7e4431fb481dc5");
+   (U"common.checkformat_gpg_signature", U"a3c5515ffb8c9f6183ba");
+   (U"common.checkformat_hex_key", U"625afdf8f56eb4c97143");
+   (U"common.checkformat_hex_string", U"eac17f8be3d488d4b8a0");
+   (U"common.checkformat_list_of_hex_keys", U"4c9121b74cf062a7e2fd");
+   (U"common.checkformat_signature", U"d544854022da28dcc399");
+   (U"common.is_gpg_fingerprint", U"fd061164635908ebd7f2");
+   (U"common.is_gpg_signature", U"f236e9c50126a7909e84");
+   (U"common.is_hex_key", U"63c7822022cd24f926e2");
+   (U"common.is_hex_signature", U"433f44075f931ec629d6");
+   (U"common.is_hex_string", U"35e6d253e0c21ac09fca");
+   (U"common.is_signature", U"cc04b1fcfd687d0beea7")].
+Proof. reflexivity. Qed.
+(* END SOURCE PINS *)
+
 Print Assumptions C15_lengths_frozen.
 Print Assumptions C15_hex_key_iff.
 Print Assumptions C15_hex_signature_iff.
@@ -100,3 +122,4 @@ Print Assumptions C15_keylist_no_dup_bytes.
 Print Assumptions C15_predicate_agrees.
 Print Assumptions C15_raisers_family.
 Print Assumptions C15_witnesses.
+Print Assumptions C15_source_pinned.
